@@ -877,3 +877,100 @@ def m_iter_any(I, st, args, c, dest, target, span):
         if chain_membership(I, st, start, proto["field"], k):
             return VBool(True)
     return VBool(False)
+
+
+# ------------------------------------------------------------------ iterator adaptors executed by unrolling (no summary)
+SKIP = "core::iter::adapters::skip::Skip"
+
+
+@model("core::iter::traits::iterator::Iterator::skip")
+def m_iter_skip(I, st, args, c, dest, target, span):
+    return VStruct(SKIP, (("iter", args[0]), ("n", I.force(st, args[1]))))
+
+
+def resolve_iter(I, st, itref, ity):
+    """(reference to the innermost local iterator, its `next` key, number of elements still to skip, ref to the skip counter)."""
+    if ity.get("path") == SKIP:
+        sk = I.force(st, I.load(st, itref.root, itref.path))
+        n = sk.get("n")
+        if not (isinstance(n, VInt) and n.t.is_const()):
+            raise Undecided("Skip with a symbolic count")
+        inner_ty = I.prog.ty(ity["args"][0])
+        iref, nk, n2, _ = resolve_iter(I, st, VRef(itref.root, itref.path + (("field", "iter"),), True), inner_ty)
+        return iref, nk, n.t.c + n2, VRef(itref.root, itref.path + (("field", "n"),), True)
+    nk = I.impl_index.get((ITER, "next", ity.get("path")))
+    if nk is None:
+        raise Undecided("iteration over a non-local iterator type %s" % ity.get("s"))
+    return itref, nk, 0, None
+
+
+def _unrolled(name, on_item, on_end, pred_by_ref):
+    """Generic `loop { match it.next() { None => on_end, Some(x) => f(x) ... } }` native."""
+    @native(name)
+    def nat(I, st, data, value):
+        stage = data[0]
+        if value is START:
+            _, iref, nk, skip, f = data
+            return ("call", nk, [iref], ("next", iref, nk, skip, f))
+        if stage == "next":
+            _, iref, nk, skip, f = data
+            o = as_opt(I, st, value)
+            if o.variant == "None":
+                return ("ret", on_end())
+            item = o.get("0")
+            if skip > 0:
+                return ("call", nk, [iref], ("next", iref, nk, skip - 1, f))
+            arg = VRef(st.new_temp(item), (), False) if pred_by_ref else item
+            return ("callv", f, [arg], ("pred", iref, nk, 0, f, item))
+        if stage == "pred":
+            _, iref, nk, skip, f, item = data
+            r = on_item(I, st, item, I.force(st, value))
+            if r is not None:
+                return ("ret", r)
+            return ("call", nk, [iref], ("next", iref, nk, 0, f))
+        raise Undecided("bad stage")
+
+    def mdl(I, st, args, c, dest, target, span):
+        targs = [a for a in (c.get("args") or []) if isinstance(a, int)]
+        ity = I.prog.ty(targs[0])
+        itref = I.force(st, args[0])
+        iref, nk, skip, nref = resolve_iter(I, st, itref, ity)
+        if nref is not None:
+            I.store(st, nref.root, nref.path, VInt(Lin(0), 64, False), span)
+        return I.start_native(st, name, ("start", iref, nk, skip, args[1]), dest, target, span)
+    return mdl
+
+
+def _find_item(I, st, item, b):
+    return some(item) if b.b else None
+
+
+def _findmap_item(I, st, item, r):
+    r = as_opt(I, st, r)
+    return r if r.variant == "Some" else None
+
+
+def _any_item(I, st, item, b):
+    return VBool(True) if b.b else None
+
+
+def _all_item(I, st, item, b):
+    return VBool(False) if not b.b else None
+
+
+MODELS["core::iter::traits::iterator::Iterator::find"] = _unrolled("it_find", _find_item, none, True)
+MODELS["core::iter::traits::iterator::Iterator::find_map"] = _unrolled("it_find_map", _findmap_item, none, False)
+MODELS["core::iter::traits::iterator::Iterator::all"] = _unrolled("it_all", _all_item, lambda: VBool(True), False)
+_any_unrolled = _unrolled("it_any", _any_item, lambda: VBool(False), False)
+_any_summary = MODELS["core::iter::traits::iterator::Iterator::any"]
+
+
+def m_iter_any_dispatch(I, st, args, c, dest, target, span):
+    """Summarise when the iterator is a pure single-link chain walk and the predicate an identity test; otherwise unroll."""
+    nk, ity = iter_next_key(I, c)
+    if nk is not None and I.chain_protocol(nk) is not None:
+        return _any_summary(I, st, args, c, dest, target, span)
+    return _any_unrolled(I, st, args, c, dest, target, span)
+
+
+MODELS["core::iter::traits::iterator::Iterator::any"] = m_iter_any_dispatch
